@@ -6,8 +6,11 @@ EXTENDS SymTab, Json
 ViewGraph == <<stack, all, counter, nops>>
 
 NB == Len(Builtins)
-UserMap(m) == [n \in DOMAIN m \ {Builtins[i].name : i \in 1..NB} |-> m[n]]
-(* compact state key: builtins are left out (they never change: BuiltinsPresent) *)
+(* compact state key: the built-in BINDINGS (ids below NB, in the global scope) are left out - they never change           *)
+(* (BuiltinsPresent).  A user binding of a built-in NAME in an inner scope (shadowing `pi` or `U`) is part of the state:   *)
+(* an earlier version dropped entries by name and merged such states, which made the exported graph wrong for the          *)
+(* configuration whose names include built-ins (MCSymTab_graphg).                                                          *)
+UserMap(m) == [n \in {x \in DOMAIN m : m[x] >= NB} |-> m[n]]
 StateKey(s, a, n) ==
   [ s |-> [i \in 1..Len(s) |-> [k |-> s[i].kind, m |-> UserMap(s[i].map)]],
     u |-> SubSeq(a, NB + 1, Len(a)), n |-> n ]
